@@ -1,7 +1,12 @@
 """C02 — BPTC(196,96): encode / decode round trip, repair transparency, every error of weight <= 2 repaired
-(DESIGN §5 C02).  Theorems: lean/DmrVerif/Props/C02{,a,b,c}.lean; model: Model/Bptc.lean."""
+(DESIGN §5 C02).  Theorems: lean/DmrVerif/Props/C02{,a,b,c}.lean; model: Model/Bptc.lean, and for
+histories of calls (every entry point of the class, related inputs of both accepted lengths, objects
+kept and overwritten by the caller) Model/BptcHist.lean."""
 import itertools
+import sys
+import types
 
+import numpy
 from bitarray import bitarray
 
 from common import BIN, bits_str, impl_error, sh
